@@ -1,4 +1,4 @@
-import SgVerif.C30.WalkF
+import SgVerif.C30.Walk2
 /-
 C30 — Derived datatypes have MPI layout and transfer exactly their bytes.  Property theorems.
 
@@ -23,7 +23,7 @@ What is PROVED below (the model follows the code after props/C30/fix_series):
  * the per-constructor steps (`lb_ub_extent_eq_spec_indexed`, …), the older closure on the indexed family
    (`lb_ub_extent_eq_spec_idx_trees`), `pack_unpack_roundtrip_partial` (about the code's own walk) are kept;
  * the witnesses of the fixed defects as regression theorems (`…_regression`, `decide`).
-Lemmas: Closure*.lean (`Rel1`: lb / ub / size / natural bounds, preserved by every `mk*`), Walk*.lean (`W`: walk = typemap).
+Lemmas: Closure.lean, Closure2.lean (`Rel1`: lb / ub / size / natural bounds, preserved by every `mk*`), Walk.lean, Walk2.lean (`W`: walk = typemap).
 Still false on the code (findings kept): true extent (`true-extent`), uncommitted old type of a ≥ 2-dimensional subarray
 (`valid-type-rejected`).  Outside the theorems: negative strides / negative new extents, MPI_LB / MPI_UB members given by
 the user, different send and receive types.
